@@ -126,15 +126,21 @@ def check(sc, res, ticks=True):
 
 
 def check_resumes(sc, res, ticks=True):
-    """generic: exact resume lists for the fibers named in sc.expect['resumes']"""
+    """generic: exact resume lists for the fibers named in sc.expect['resumes'] (+ items that must still be available)"""
     probs = []
+    sig = sc.expect.get("sig")
     for f, exp in sc.expect.get("resumes", {}).items():
         got = [g[:2] for g in resumes(res["lines"], f)]
         exp = [tuple(e) for e in exp]
         if not ticks:
             got, exp = [g[1] for g in got], [e[1] for e in exp]
         if got != exp:
-            probs.append(("resume-list-differs:" + sc.id, "fiber %s resumed %r, expected %r" % (f, got, exp)))
+            probs.append((sig or ("resume-list-differs:" + sc.id),
+                          (sc.expect.get("what", "") + " — " if sig else "") + "fiber %s resumed %r, expected %r" % (f, got, exp)))
+    ml = logs(res["lines"], "M")
+    for lab, val in sc.expect.get("m_final", []):
+        if ml.get(lab, (0, None))[1] != val and not probs:
+            probs.append((sig or "item-not-available", "after the abandoned wait the offered item is gone: %s = %r expected %r" % (lab, ml.get(lab), val)))
     if res["status"] != "ok" and not probs:
         probs.append(("end-" + res["status"], "scenario %s ended with status %s" % (sc.id, res["status"])))
     return probs
